@@ -15,47 +15,68 @@ from pbt.core import clause, enum_clause, HarnessError
 PROPERTY = "C18"
 CLAUSES = []
 ASSUMPTIONS = [
-    "components: two AccSignals with the same dt and the same number of samples (compute_rotated asserts both), finite "
-    "float64 (or integer-dtype / list variants), 2 <= n <= 300, |a| <= 1e9; angles and offsets are finite, |angle| <= 1e4 deg",
+    "components: two AccSignals - for combine_at_angle also two plain Signals - with the same dt and the same number of samples "
+    "(compute_rotated asserts both), finite float64 (or int64 / list / strided-view variants; narrow integer and single-precision "
+    "records are handled centrally), 2 <= n <= 300 in the random clauses and 2000..300000 (thorough 2e6) in the mid-range "
+    "enumerations, |a| <= 1e9; angles and offsets are finite scalars, |angle| <= 1e4 deg",
     "combination tolerance (per sample k): eps*(4 + 2*|theta_rad|)*(|ns_k|+|we_k|): degrees->radians carries a relative "
     "error <= 1.5 eps (rounded constant pi/180 and one product), cos/sin <= 1 ulp, two products and one sum <= eps*(|ns_k|+|we_k|); "
-    "theta=0 is exact (cos 0 = 1, sin 0 = 0); theta=90: |ns_k|*cos(fl(pi/2)) = 6.2e-17*|ns_k| plus one rounding -> 2*eps*(|ns_k|+|we_k|); "
+    "theta=0 is exact (cos 0 = 1, sin 0 = 0); theta=90 uses the general bound (cos(fl(pi/2)) = 6.1e-17, not 0); "
     "theta+180 (formed in double precision by the check) is compared with the library's own theta result using the sum of "
-    "both bounds plus eps*|theta_rad| for the rounding of theta+180; the reference is evaluated in long double",
+    "both bounds plus eps*|theta_rad| for the rounding of theta+180; the reference is evaluated in long double; the result must be a "
+    "signal object (values, dt, npts) with the components' sampling - which class is not asserted",
     "rotated scan: 'the requested angles spanning a half circle' are -off + 180*i/(points-1), i = 0..points-1 (DESIGN), taken "
     "modulo 360; they are compared on the circle (0 and 360 are the same direction) with tolerance 16*eps*(|off|+360) "
     "(linspace: one division, one product, one sum; mod: one sum); points >= 1 (points = 1 gives the single angle -off)",
-    "rotated scan values: 'exactly the measure of that combination' is asserted bit-for-bit against the measure applied to the "
+    "rotated scan values: 'exactly the measure of that combination' is asserted against the measure applied to the "
     "public combine_at_angle(ns, we, returned_angle[i]) (declared differential between two public entry points; the combination "
-    "itself is anchored to the formula by clause `combine`); the measures 'pga', 'pgv', 'pgd', 'arias_intensity' are the "
-    "object's own (their correctness is C08/C09); for sup-norm Lipschitz-1 measures (pga, signed maximum, last sample) "
-    "the value is additionally compared with the measure of the long-double reference combination within the combination tolerance",
-    "callables are module-level functions selected by name (replayable); they return a Python/NumPy scalar, an ndarray series or "
-    "a list (last element is the measure); 0-d arrays are not 'scalars' for this purpose",
+    "itself is anchored to the formula by clause `combine`), up to what a rounding-level difference of the combination does to the "
+    "measure: 4*eps*(4+2*rad(|off|+540)) times the same measure of the envelope record |ns|+|we| (every measure used is a sum of "
+    "at most quadratic terms of the samples; an implementation may combine at the un-reduced angle and return it reduced); "
+    "a `parameter` names ANY attribute of the combination: scalar ones (pga, pgv, pgd, npts, and 'arias_intensity', which the scan "
+    "computes itself) give one number per angle, array-valued ones (values, velocity, displacement, time) one row per angle - the "
+    "whole attribute is 'the measure'; response-spectrum attributes (s_a ...) are not used (no envelope bound); for sup-norm "
+    "Lipschitz-1 measures (pga, signed maximum, last sample) and for 'values' the result is additionally compared with the "
+    "long-double reference combination within the combination tolerance",
+    "callables are module-level functions selected by name (replayable); they return a Python/NumPy scalar, an ndarray series, "
+    "a list or a tuple (last element is the measure, as the scan's code documents for anything with a length); 0-d arrays are not "
+    "'scalars' for this purpose; a call with neither parameter nor callable must raise (no class named)",
     "time-match: the statement's 'any integer lag smaller than the search window' is read as lags in (-steps, steps) "
-    "(quantifier), 2 <= steps <= 20, and every signal has at least steps+2 samples so that the comparison window "
+    "(quantifier), 2 <= steps <= 64, and every signal has at least steps+2 samples so that the comparison window "
     "has >= 2 samples; signals are windows of ONE underlying record whose values are pairwise distinct (checked per case), "
     "so the misfit is exactly 0 at the true lag and > 0 at every other lag; samples of a slave that have no counterpart in the "
-    "master are either the record's own continuation ('window'), independent distinct reals ('rand') or the held edge value ('edge')",
+    "master are either the record's own continuation ('window'), independent distinct reals ('rand') or the held edge value ('edge'); "
+    "near-copies: a slave may carry independent noise of relative size 1e-6..1e-3 (standard-normal records only, >= 16 compared "
+    "samples: any sensible misfit then has its unique minimum at the true lag with a margin of > 1e5); then 'coincide' is checked as: "
+    "sample k holds exactly what the slave held at k + lag",
     "time-match 'overlapping samples': for a slave that lags by L (slave[k] = master[k-L]) the samples k with 0 <= k and "
     "k+L < len(slave) and k < len(master) for L > 0, and -L <= k < min(len(slave), len(master)) for L < 0: exactly the samples "
     "that exist in both records once the lag is removed; what the library writes outside the overlap is not asserted",
-    "time-match return value: only asserted for two-signal clusters and only in absolute value (the statement fixes no sign "
-    "convention and no meaning for several slaves)",
+    "time-match return value: not asserted (the statement gives it no meaning); 'values remain arrays' = one-dimensional numeric "
+    "ndarrays (float or integer dtype)",
     "clause time-match uses equal-length signals (DESIGN); clause time-match-unequal (addition to DESIGN, requested by the "
     "build task) uses signals of different lengths, which the constructor accepts and time_match explicitly anticipates "
     "(length_check = min of two lengths)",
+    "a second time_match on an already matched cluster (mid-range enumeration, records >= 8*steps samples) must move nothing: the "
+    "padded |lag| < steps edge samples are outweighed >= 7:1 by the coinciding ones",
     "same-start: sections are time windows (same_start has no index mode; index-like windows are produced with dt = 1), inside "
-    "every record of the cluster; the sample set of a time window [start, end] is convention dependent at the edges, so the "
-    "check accepts ANY of the candidate index ranges [s, e]: s in {floor(start/dt), floor(start/dt)+1} ({k-1, k} when start/dt "
-    "is within 1e-9 of the integer k), e = floor(end/dt) ({k-1, k} when within 1e-9 of k), quotients evaluated in exact rational "
-    "arithmetic; the same range must work for every signal of the cluster",
+    "every record of the cluster; the section is [start, end] of the time axis: first sample = k when start lies exactly (rational "
+    "arithmetic) on the sample instant k; k, and k-1 only if a double-precision evaluation of start/dt (division, or product with "
+    "1/dt) falls below k, when start is within 1e-9 of the instant; floor(start/dt) or floor(start/dt)+1 (edge convention left open "
+    "by the statement) when it lies strictly between two samples; last sample = floor(end/dt) with the same rule for an end "
+    "within rounding of an instant; the same range must work for every signal of the cluster",
     "same-start tolerance 1e-12*scale, scale = largest |value| in the cluster before or after the call: derived bound "
-    "(64 + 4*log2(m))*eps*scale <= 2.5e-14*scale for sections of m <= 5000 samples (two pairwise means, one subtraction per "
-    "sample), the stated tolerance leaves a factor 40",
+    "(64 + 4*log2(m))*eps*scale <= 3.5e-14*scale for sections of m <= 2e6 samples (two pairwise means, one subtraction per "
+    "sample), the stated tolerance leaves a factor 30",
     "same_start() without arguments (what the repo's test and example do): the section is the signature's default start=0, end=1 "
     "(seconds); generated only for records that contain it (int(1/dt)+1 <= n)",
     "same-start 'changed only by a constant': (new_k - old_k) equals (new_0 - old_0) within 4*eps*(|old_k|+|new_k|+|old_0|+|new_0|)",
+    "Cluster stypes: 'custom' / 'acc' / omitted / a per-signal list mixing both; names, base, verbose, set_step, trim are not part "
+    "of the statement and are left at their defaults; fns.time_indices / get_section_average are exercised through same_start in "
+    "time mode only (their index mode has no caller inside the statement)",
+    "mid-range enumerations: lengths / products from gen.size_ladder / gen.product_pairs (one per octave placed by hash of "
+    "VERIF_SEED, + the integer literals of the source under test, + one in the top 5 % of the range); the rotated scan at large "
+    "points x n checks all angles but the values only at a sample of indices (first, last, 0 / 1 / -1 modulo 2^5..2^12, by hash)",
 ]
 EPS = np.finfo(float).eps
 LD = np.longdouble
@@ -633,6 +654,18 @@ def _tm_check(case, ctx):
                          float(v[bad]), "master has %r" % float(m[bad]) if case.get("noise") is None else
                          "the slave's sample %d was %r (master %r)" % (bad + lag, float(want[bad - lo]), float(m[bad])),
                          lo, hi - 1, int(np.sum(v[lo:hi] != want))))
+    if case.get("again") and min(lens) >= 8 * steps:
+        # history: the same cluster is matched a second time.  Every slave now has lag 0 against the master (its first / last
+        # |lag| < steps samples hold the padding, the other >= 7 * steps compared samples coincide to the noise), so the call must
+        # leave every signal as it is
+        held = [np.array(cl.values_by_index(j)) for j in range(nsig)]
+        if case["steps"] is None:
+            ctx.lib(cl.time_match)
+        else:
+            ctx.lib(cl.time_match, steps=steps)
+        ctx.cls("matched-twice")
+        for j in range(nsig):
+            ctx.equal(np.asarray(cl.values_by_index(j)), held[j], "signal %d (lag %d removed by the first time_match) moved again in a second time_match" % (j, lags[j]))
 
 
 @clause(CLAUSES, "time-match", _tm_cases(), quick=600, thorough=2000,
@@ -700,20 +733,34 @@ def _near_int(q):
     return k if abs(q - k) <= Fraction(1, 10 ** 9) * max(1, abs(k)) else None
 
 
+def _fp_quotients(t, dt):
+    """How a double-precision implementation may evaluate t/dt: one division, or one product with the reciprocal."""
+    return [float(t) / float(dt), float(t) * (1.0 / float(dt))]
+
+
 def _start_cands(t, dt):
+    """First sample of the section [start, end] of the time axis.
+
+    * start on the sample instant k exactly (rational arithmetic): k - the sample before it lies outside the section;
+    * start within rounding (1e-9) of the instant k: k, and k-1 only if a double-precision evaluation of start/dt actually falls
+      below k (then floor() of it is k-1: the ambiguity is real, not a licence);
+    * start strictly between two samples: the sample interval that contains it (floor) or the first sample inside (floor+1) - the
+      statement leaves the edge convention open."""
     q = _quot(t, dt)
     k = _near_int(q)
     if k is not None:
-        return [k - 1, k]
+        return [k - 1, k] if q != k and min(_fp_quotients(t, dt)) < k else [k]
     f = math.floor(q)
     return [f, f + 1]
 
 
 def _end_cands(t, dt):
+    """Last sample of the section: the last sample at or before `end`; an end within rounding of the instant k is ambiguous only
+    if a double-precision evaluation of end/dt falls below k."""
     q = _quot(t, dt)
     k = _near_int(q)
     if k is not None:
-        return [k - 1, k]
+        return [k - 1, k] if q != k and min(_fp_quotients(t, dt)) < k else [k]
     return [math.floor(q)]
 
 
@@ -730,7 +777,7 @@ def _ss_cases(draw):
     offsets = [draw(st.one_of(st.just(0.0), st.floats(-100.0, 100.0, allow_nan=False), st.integers(-8, 8).map(float)))
                for _ in range(nsig)]
     case = {"sigs": specs, "offsets": offsets, "master": master,
-            "stype": draw(st.sampled_from(["custom", "custom", "acc", "default"]))}
+            "stype": draw(st.sampled_from(["custom", "custom", "acc", "default", "mixed"]))}
     mode = draw(st.sampled_from(["window", "window", "window", "index-like", "defaults"]))
     case["mode"] = mode
     if mode == "defaults":
@@ -776,6 +823,8 @@ def same_start(case, ctx):
         if off != 0:
             if spec.get("as") == "int":
                 arg = arg + int(off)
+            elif spec.get("as") == "intlist":
+                arg = [x + int(off) for x in arg]
             elif spec.get("as") == "list":
                 arg = [x + off for x in arg]
             else:
@@ -802,7 +851,9 @@ def same_start(case, ctx):
     if max(_end_cands(end, dt)) > nmin - 1 or not scands or not ecands or min(scands) > max(ecands):
         raise HarnessError("case outside the domain of the clause: section not inside the records")
     ckw = {"master_index": master}
-    if case.get("stype", "custom") != "default":
+    if case.get("stype", "custom") == "mixed":
+        ckw["stypes"] = [("acc" if (j + master) % 2 else "custom") for j in range(nsig)]
+    elif case.get("stype", "custom") != "default":
         ckw["stypes"] = case["stype"]
     cl = ctx.lib(multiple.Cluster, args, dt, **ckw)
     before = [np.array(cl.values_by_index(j), dtype=float) for j in range(nsig)]
@@ -859,3 +910,170 @@ def same_start(case, ctx):
         ctx.fail("same_start(%s) with master %d of %d signals: section averages over samples %d..%d: master %r, %s "
                  "(largest difference %.3g > tol %.3g)" % (
                      ", ".join("%s=%r" % kv for kv in sorted(kwargs.items())), master, nsig, s, e, mm, parts, worst, tol))
+
+
+# ---------------------------------------------------------------------------
+# mid-range sizes and products (DESIGN 8.5: a code path that only exists inside a window of record lengths / of a product of two
+# dimensions - a blocked, streamed, cached or decimated variant - is invisible to generators that stop at 300 samples)
+
+_MID_DTS = (0.005, 0.01, 0.02, 0.004)
+_MID_AS = [None, None, "int", "list", "view", "intlist"]
+
+
+def _mid_combine_enum(tier, shard, nshards):
+    sizes = _mid_sizes(tier, 2000, 300000, 2000000, 12, "c18-combine")
+    for i, n in enumerate(sizes):
+        if i % nshards != shard:
+            continue
+        h = _hh(gen.run_seed(), "mc", n)
+        a1 = _MID_AS[(h >> 4) % 6] if n <= 400000 else None
+        a2 = _MID_AS[(h >> 8) % 6] if n <= 400000 else None
+        ang = [37.3, -211.25, 90, 1234.5, 0.5, 180, -45.0, 359.999][(h >> 12) % 8] + ((h >> 20) % 1000) / 997.0 * ((h >> 16) % 2)
+        yield {"ns": _mid_spec(n, "mc-ns", as_=a1, amp=(2 if a1 in _INT_AS else 0)), "we": _mid_spec(n, "mc-we", as_=a2, amp=(2 if a2 in _INT_AS else 0)),
+               "dt": _MID_DTS[h % 4], "angle": ang, "comp": ["acc", "sig"][(h >> 30) % 2]}
+
+
+@enum_clause(CLAUSES, "mid-range-combine", _mid_combine_enum,
+             rule="record lengths on a logarithmic ladder 2000..300000 (thorough: ..2e6, three times as dense) + lengths aimed at the integer "
+                  "literals of the source under test; ordinary records (noise x envelope / sines / walk, non-zero mean) as float64 / int64 / "
+                  "list / strided view; AccSignal or Signal components; angles by hash (integer, fractional, > 360, negative)",
+             oracle="as clause combine, every sample: long-double ns*cos+we*sin, theta+180, theta = 0 and 90",
+             exhaustive_note="the laddered lengths of this seed", quick_shards=4)
+def mid_range_combine(case, ctx):
+    combine(case, ctx)
+
+
+_MID_MEASURES = [("parameter", "pga"), ("func", "running_sum"), ("parameter", "pgv"), ("parameter", "arias_intensity"),
+                 ("func", "last_sample"), ("parameter", "values"), ("parameter", "pgd"), ("func", "cav"), ("func", "tuple_series"),
+                 ("parameter", "velocity"), ("func", "peak_signed"), ("func", "arias_series")]
+
+
+def _mid_rotated_enum(tier, shard, nshards):
+    hi = 1.2e7 if tier == "quick" else 1e8
+    pairs = gen.product_pairs(1e5, hi, 9 if tier == "quick" else 24, (2, 6000), (60, 300000 if tier == "quick" else 1500000), "c18-rot")
+    # + the length dimension alone (few angles) and the angle dimension alone (short records)
+    pairs += [(2 + _hh(gen.run_seed(), "rp", n) % 5, n) for n in _mid_sizes(tier, 2000, 300000, 1500000, 6, "c18-rot-n")]
+    pairs += [(p, 40 + _hh(gen.run_seed(), "rn", p) % 200) for p in gen.size_ladder(50, 6000, 6, "c18-rot-p")]
+    for i, (points, n) in enumerate(pairs):
+        if i % nshards != shard:
+            continue
+        h = _hh(gen.run_seed(), "mr", points, n)
+        how, name = _MID_MEASURES[(i + gen.run_seed()) % len(_MID_MEASURES)]
+        if name in ARRAY_PARAMS and points * n > 4e6:
+            how, name = "parameter", "pgv"  # (points x n result array)
+        yield {"ns": _mid_spec(n, "mr-ns"), "we": _mid_spec(n, "mr-we"), "dt": _MID_DTS[h % 4], "how": how, "name": name,
+               "form": ["kw", "pos"][(h >> 4) % 2], "off": [0.0, 33.5, -270.0, 400.25][(h >> 8) % 4], "points": int(points),
+               "pick": int(h % (2 ** 31 - 1))}
+
+
+def _seam_indices(m, pick, limit=40):
+    """Indices into range(m) to look at when not all can be: the first two, the last two, those that are 0, 1 or -1 modulo 2^k
+    (k = 5..12: the seams of any power-of-two block size) and some chosen by hash - at most `limit` (hash-selected)."""
+    idx = {0, 1, m - 2, m - 1}
+    for k in range(5, 13):
+        b = 2 ** k
+        for j in range(b, m, b):
+            idx.update((j - 1, j, j + 1))
+    rs = np.random.RandomState(pick)
+    idx.update(int(v) for v in rs.randint(0, m, 12))
+    idx = sorted(v for v in idx if 0 <= v < m)
+    if len(idx) > limit:
+        keep = {0, 1, m - 2, m - 1}
+        rest = [v for v in idx if v not in keep]
+        rs.shuffle(rest)
+        idx = sorted(keep | set(rest[:limit - len(keep)]))
+    return [v for v in idx if 0 <= v < m]
+
+
+@enum_clause(CLAUSES, "mid-range-rotated", _mid_rotated_enum,
+             rule="(points, n) pairs whose PRODUCT is laddered over 1e5..1.2e7 (thorough: ..1e8) with a hash-chosen split (points 2..6000, "
+                  "n 60..300000) + products aimed at integer literals of the source; + lengths 2000..300000 with 2-6 angles; + 50..6000 "
+                  "angles on short records; measures rotate through scalar and array-valued parameter names and callables",
+             oracle="as clause rotated: ALL returned angles against the exact rational reference; values at a sample of angles (first two, "
+                    "last two, every index that is 0, 1, -1 modulo 2^5..2^12, twelve by hash; at most 40) against the measure of the "
+                    "public combination at that angle and, for sup-norm measures / 'values', the long-double formula",
+             exhaustive_note="the laddered products of this seed", quick_shards=4)
+def mid_range_rotated(case, ctx):
+    ctx.cls("points*n>=2^%d" % int(math.log2(case["points"] * case["ns"]["n"])))
+    _rotated_check(case, ctx, sample=_seam_indices(case["points"], case["pick"]))
+
+
+def _mid_tm_enum(tier, shard, nshards):
+    sizes = _mid_sizes(tier, 120, 150000, 600000, 12, "c18-tm")
+    for i, n in enumerate(sizes):
+        if i % nshards != shard:
+            continue
+        h = _hh(gen.run_seed(), "mt", n)
+        # the pinned search costs 2 * steps * n Python-level additions per slave
+        steps = 2 + (h >> 4) % (63 if n <= 20000 else (19 if n <= 60000 else 11))
+        steps = min(steps, max(2, n // 8))
+        nsig = 2 + (h >> 12) % (3 if n <= 60000 else 2)
+        master = (h >> 16) % nsig
+        lags = [[steps - 1, -(steps - 1), 1, -((h >> 24) % steps), (h >> 28) % steps][((h >> 20) + j) % 5] for j in range(nsig)]
+        lags[master] = 0
+        kind = ["normal", "perm", "normal"][(h >> 32) % 3]
+        case = {"nsig": nsig, "master": master, "steps": steps, "lens": [int(n) + ((h >> 36) % 7) * j * ((h >> 40) % 2) for j in range(nsig)],
+                "lags": lags, "kind": kind, "seed": int(h % (2 ** 31 - 1)), "fill": ["window", "rand", "edge"][(h >> 44) % 3],
+                "stype": ["custom", "acc", "mixed"][(h >> 48) % 3], "dt": _MID_DTS[h % 4], "again": True}
+        if kind == "perm":
+            case["as"] = _TM_AS[(h >> 52) % 6]
+        elif (h >> 52) % 2:
+            case["noise"] = -6 + (h >> 56) % 4
+        yield case
+
+
+@enum_clause(CLAUSES, "mid-range-time-match", _mid_tm_enum,
+             rule="record lengths on a logarithmic ladder 120..150000 (thorough: ..600000, denser) + lengths aimed at the integer literals of "
+                  "the source; search window 2..64 (narrower for the longest records: the pinned search is a Python loop), 2-4 signals, "
+                  "any master, lags at the extremes +-(steps-1) and by hash, equal and slightly unequal lengths; exact copies (float / int64 / "
+                  "int list / list) and noisy copies (1e-6..1e-3)",
+             oracle="as clause time-match over the WHOLE overlap; then a second time_match on the same cluster (records >= 8 x steps): "
+                    "the lag is gone, nothing may move any more",
+             exhaustive_note="the laddered lengths of this seed", quick_shards=4)
+def mid_range_time_match(case, ctx):
+    ctx.cls("n>=2^%d" % int(math.log2(min(case["lens"]))))
+    _tm_check(case, ctx)
+
+
+def _mid_ss_enum(tier, shard, nshards):
+    sizes = _mid_sizes(tier, 2000, 300000, 2000000, 12, "c18-ss")
+    for i, n in enumerate(sizes):
+        if i % nshards != shard:
+            continue
+        h = _hh(gen.run_seed(), "ms", n)
+        nsig = 2 + (h >> 4) % 3
+        master = (h >> 8) % nsig
+        dt = [1.0, 0.005, 0.01, 0.02, 0.004, 0.0125][(h >> 12) % 6]
+        lens = [int(n) + ((h >> 16) % 2) * ((h >> 20) % 50) * j for j in range(nsig)]
+        u1, u2 = ((h >> 24) % 10 ** 4) / 1e4, ((h >> 40) % 10 ** 4) / 1e4
+        # sections: short at the start, long in the middle, the whole record - by hash; edges on and between samples
+        kind = (h >> 56) % 4
+        if kind == 0:
+            si, ei = 0, int(1 + u2 * min(n - 1, 400))
+        elif kind == 1:
+            si, ei = 0, n - 1
+        else:
+            si = int(u1 * (n - 2))
+            ei = si + int(u2 * (n - 1 - si))
+        fs, fe = [0.0, 0.0, 0.5, 0.25][(h >> 58) % 4], [0.0, 0.75, 0.0, 0.5][(h >> 60) % 4]
+        if ei == n - 1:
+            fe = 0.0
+        specs = []
+        for j in range(nsig):
+            a = _MID_AS[((h >> 30) + j) % 6] if lens[j] <= 400000 else None
+            specs.append(_mid_spec(lens[j], "ms%d" % j, as_=a, amp=(2 if a in _INT_AS else 0)))
+        yield {"sigs": specs, "offsets": [float((h >> (3 * j)) % 17) - 8.0 if j != master else 0.0 for j in range(nsig)], "master": int(master),
+               "stype": ["custom", "acc", "mixed", "default"][(h >> 50) % 4], "mode": "window", "dt": dt,
+               "start": (si + fs) * dt, "end": (ei + fe) * dt}
+
+
+@enum_clause(CLAUSES, "mid-range-same-start", _mid_ss_enum,
+             rule="record lengths on a logarithmic ladder 2000..300000 (thorough: ..2e6, denser) + lengths aimed at the integer literals of the "
+                  "source; 2-4 ordinary records (float64 / int64 / list / strided view, equal or slightly unequal lengths) with offsets, any "
+                  "master; sections: a short one at the start, the whole record, or a hash-placed window, edges on and between samples; "
+                  "dt = 1 (index-like) and the repo's rates",
+             oracle="as clause same-start: long-double section means over one of the (narrowed) candidate sample ranges, master unchanged, "
+                    "slaves changed by one constant, lengths unchanged",
+             exhaustive_note="the laddered lengths of this seed", quick_shards=4)
+def mid_range_same_start(case, ctx):
+    same_start(case, ctx)
